@@ -220,11 +220,11 @@ def adversarial_names_stream(res, logic, gen_tree, rng, quick, pid):
         cases.append((K, t, KS(K.succ, [[m.get(l, l) for l in ls] for ls in K.labs]), _rename(t, m)))
     # hand-made: two quantified subformulas with a long common printed prefix, the first one unsatisfiable
     LONG = 'p' + 'y' * 300
-    for K in [common.KS([[1], [1]], [[LONG], ['q']]), common.KS([[1], [0]], [['p'], [LONG, 'q']])]:
+    for K in ([] if logic == 'LTL' else [common.KS([[1], [1]], [[LONG], ['q']]), common.KS([[1], [0]], [['p'], [LONG, 'q']])]):
         for op in ('and', 'or'):
             long_cases.append((K, (op, ('E', ('U', ('ap', 'p'), ('ap', 'r'))), ('E', ('U', ('ap', 'p'), ('ap', 'q')))),
                                K, (op, ('E', ('U', ('ap', LONG), ('ap', 'r'))), ('E', ('U', ('ap', LONG), ('ap', 'q'))))))
-    if long_cases and logic != 'LTL':
+    if long_cases:
         li = [norm(x) for x in impl_batch([(logic, K2.succ, K2.labs, t2, 'obj') for _, _, K2, t2 in long_cases])]
         lm = [norm(x) for x in lean_batch(['%s|%s|%s' % (logic, K2.enc(), sexpr(t2)) for _, _, K2, t2 in long_cases])]
         nl = 0
@@ -270,7 +270,8 @@ def adversarial_names_stream(res, logic, gen_tree, rng, quick, pid):
         for k in common.known_findings(pid):
             if k['id'].endswith('-names'):
                 res.known.append('%s: %s' % (k['id'], k['what']))
-    return {'adversarial_name_cases': len(cases), 'adversarial_name_known_finding_instances': known_hits,
+    return {'adversarial_name_cases': len(cases), 'long_identifier_cases': len(long_cases),
+            'adversarial_name_known_finding_instances': known_hits,
             'adversarial_name_unexplained_wrong_answers': new, 'adversarial_name_memo_model_deviations': infidel,
             'adversarial_name_witness_still_fails': live}
 
